@@ -34,6 +34,10 @@ def spellings(U, letters, mode):
         return tuple(U[l].name for l in letters)
     if mode == 2:
         return tuple(U[l] for l in letters)
+    if mode == 4:
+        return tuple(np.str_(l) for l in letters)
+    if mode == 5:
+        return [U[l].name if i % 2 else l for i, l in enumerate(letters)]  # a list instead of a tuple
     return tuple([l, U[l].name, U[l]][i % 3] for i, l in enumerate(letters))
 
 
@@ -59,9 +63,12 @@ def do_source(rec, hub, U, all_letters, la, regimes, rng, tier):
         x = _Fresh()
         # sum_to: all ordered kept subsets, four spellings
         for keep in gen.ordered_subsets(la):
-            for mode in range(4 if reg == "tagged" else 1):
+            for mode in range(6 if reg == "tagged" else 1):
                 try:
-                    x.sum_to(spellings(U, keep, mode))
+                    if mode % 2:
+                        x.sum_to(result_dims=spellings(U, keep, mode))
+                    else:
+                        x.sum_to(spellings(U, keep, mode))
                 except Exception:
                     pass
             try:
@@ -71,9 +78,12 @@ def do_source(rec, hub, U, all_letters, la, regimes, rng, tier):
         # sum_over: all subsets (order irrelevant)
         for k in range(len(la) + 1):
             for over in itertools.combinations(la, k):
-                for mode in range(4 if reg == "tagged" else 1):
+                for mode in range(6 if reg == "tagged" else 1):
                     try:
-                        x.sum_over(spellings(U, over, mode))
+                        if mode % 2:
+                            x.sum_over(sum_over_dims=spellings(U, over, mode))
+                        else:
+                            x.sum_over(spellings(U, over, mode))
                     except Exception:
                         pass
                 try:
@@ -101,7 +111,10 @@ def do_source(rec, hub, U, all_letters, la, regimes, rng, tier):
         for l in la:
             for inplace in (False, True):
                 try:
-                    x.cumsum(l, inplace=inplace)
+                    if inplace:
+                        x.cumsum(dim_letter=l, inplace=True)
+                    else:
+                        x.cumsum(l if rng.random() < 0.7 else np.str_(l))
                 except Exception:
                     pass
         # unknown dimensions
@@ -126,8 +139,8 @@ def do_source(rec, hub, U, all_letters, la, regimes, rng, tier):
         for t in targets:
             tds = gen.dimset(fd, U, t)
             try:
-                y = x.cast_to(tds)
-                x.cast_values_to(tds)
+                y = x.cast_to(tds) if rng.random() < 0.6 else x.cast_to(target_dims=tds)
+                x.cast_values_to(target_dims=tds)
                 if reg in ("tagged", "dyadic"):
                     # sum back = original x number of added label combinations
                     n_added = 1
